@@ -194,3 +194,36 @@ Definition g_init (conf : list (key * Z * list (Z * Z))) : list gsub :=
 (* backend weights as BackendRR.Init stores them (configured x100) *)
 Definition p_init (conf : list (key * Z * list (Z * Z))) : list psub :=
   map (fun s => (fst (fst s), snd (fst s), map (fun e : Z * Z => (fst e, 100 * snd e, true)) (snd s))) conf.
+
+(* ---------------------------------------------------------------- slow start on one BalanceRR (input kind 9):
+   Balance(WrrSmooth / WlcSmooth) with SetSlowStart, Update, SetAvail, SetRestart and the clock seam, built on the
+   slow-start layer of Swrr.v; all connection counts are 0 (every eligible backend is a least-connection candidate) *)
+Definition wlc_bal (bs : list backend) : option (Z * list backend) :=
+  match wlc_smooth (map (fun b => (b, 0)) bs) with Some (p, l) => Some (p, map fst l) | None => None end.
+Definition wlc_fol (bs : list backend) (p : Z) : option (list backend) :=
+  match wlc_smooth_follow (map (fun b => (b, 0)) bs) p with Some l => Some (map fst l) | None => None end.
+Definition bal_of (wlc : bool) := if wlc then wlc_bal else smooth.
+Definition fol_of (wlc : bool) := if wlc then wlc_fol else smooth_follow.
+
+(* ---------------------------------------------------------------- C04 / C02 through BalanceGslb (C04 input kind 8):
+   the backend returned by BalanceGslb.Balance — from the first-choice OR the cross-cluster sub-cluster — must, in
+   WLC mode, minimise connections/weight among the eligible backends of the reported sub-cluster; in sticky mode it
+   must be the hash owner among them; in WRR mode it must be eligible.  Credits are never used here. *)
+Definition wcfg_of (bs : list wb) : wcfg := map (fun b => (wb_id b, wb_w b, b_av (fst b), wb_conn b)) bs.
+Definition c04_ok (m : mode) (subs : list gsub) (h : Z) (o : obs) : bool :=
+  if o_code o =? 0 then
+    let bs := find_bs (o_sub o) subs in
+    match m with
+    | MWlc => minimal_pick (wcfg_of bs) (o_bid o)
+    | MSticky => match gsticky bs h with Some p => p =? o_bid o | None => false end
+    | MWrr => existsb (fun b => wb_elig b && (wb_id b =? o_bid o)) bs
+    end
+  else true.
+Fixpoint gspec8 (p : params) (subs : list gsub) (ops : list gop) (os : list (option obs)) : bool :=
+  match ops, os with
+  | [], [] => true
+  | GBalance retry h :: r, Some o :: os' => c04_ok (fst (fst p)) subs h o && gspec8 p subs r os'
+  | GAvail s id a :: r, None :: os' => gspec8 p (g_set_avail subs s id a) r os'
+  | GConn s id n :: r, None :: os' => gspec8 p (g_set_conn subs s id n) r os'
+  | _, _ => false
+  end.
